@@ -93,4 +93,22 @@ def _table(ctx):
                 ctx.violation(f"strict-origin-outside-table:{n.kind}:{lbl}", f"strict {n.src} accepted {lbl} -> {out!r}", {"type": n.src})
 
 
-DIRECTED = {"scalar-table-x-pool": _table}
+def _confusable_literals(ctx):
+    """All spellings of {0|False} x {1|True} in ONE type: strict mode must not take a bool where the int literal is required (and vice versa)."""
+    sets = [(0, 1), (False, True), (0, True), (False, 1), (1, 0), (True, False), ("x", 0, True), ("x", False, True)]
+    for order in (sets, list(reversed(sets))):
+        node = spec.TupleT([spec.LiteralT(m) for m in order])
+        prog = Program(node)
+        for vals in ([0] * 8, [False] * 8, [1] * 8, [True] * 8, [0, False, 0, False, 1, True, 0, False], [m[0] for m in order], [m[-1] for m in order]):
+            for dt in DEBUG_MODES:
+                out = attempt(prog.loaders[dt, True], list(vals))
+                v = node.accept(list(vals), True)
+                ctx.evaluated(("confusable-literals", repr(order)[:80], repr(vals), dt.name))
+                ctx.count("pairs")
+                if out.kind == "ok" and v.k == spec.R:
+                    ctx.violation("strict-origin-outside-table:Literal:bool-int", f"strict {node.src} accepted {vals!r} -> {out.value!r}: a bool was taken for an int literal or vice versa [{dt.name}]", {"type": node.src})
+                elif out.kind != "ok" and v.k == spec.A:
+                    ctx.violation("strict-rejects-listed-literal:bool-int", f"strict {node.src} rejected {vals!r} although every item is a listed (type, value) member [{dt.name}]: {out!r:.200}", {"type": node.src})
+
+
+DIRECTED = {"scalar-table-x-pool": _table, "confusable-literals-in-one-type": _confusable_literals}
